@@ -58,6 +58,8 @@ type Profile struct {
 	PFine float64
 	// HotP: probability that a promise operation addresses the run's hot id
 	HotP float64
+	// PHostileRecv: share of receivers (registrations, routing tags) the transports cannot use
+	PHostileRecv float64
 	// Collide: registrations with coinciding derived task ids
 	Collide bool
 	// PSynth: share of front-end requests whose kernel outcome is synthesised (C15 outcome matrix)
@@ -193,6 +195,21 @@ var recvs = []string{
 	`{"type":"poll","data":{"group":"g3","id":"w3"}}`, `{"type":"http","data":{"url":"http://h.test/z"}}`,
 }
 
+// hostileRecvs are receivers a front end accepts although the transport cannot use the address.
+var hostileRecvs = []string{
+	`{"type":"poll","data":null}`, `{"type":"http","data":null}`, `{"type":"poll"}`, `{"type":"http"}`,
+	`{"type":"http","data":{}}`, `{"type":"poll","data":{}}`, `{"type":"poll","data":"x"}`, `{"type":"http","data":[1]}`,
+	`{"type":"http","data":{"url":":bad"}}`, `{"type":"http","data":{"url":"http://h.test/z","headers":{"":"v","a b":"c"}}}`,
+	`{"type":"poll","data":{"group":"","id":""}}`, `{"type":"smtp","data":{}}`,
+}
+
+func (g *Gen) recv() string {
+	if g.P.PHostileRecv > 0 && g.R.Float64() < g.P.PHostileRecv {
+		return pick(g.R, hostileRecvs)
+	}
+	return pick(g.R, recvs)
+}
+
 func (g *Gen) promiseId() string {
 	if g.R.Float64() < g.P.HotP {
 		return g.hot
@@ -228,6 +245,9 @@ func (g *Gen) createSpec(kind string) *ReqSpec {
 	}
 	if g.R.Float64() < g.P.PRouted || (kind == "CreatePromiseAndTask" && g.R.Intn(4) != 0) {
 		tags["resonate:invoke"] = pick(g.R, routingTags)
+		if g.P.PHostileRecv > 0 && g.R.Float64() < g.P.PHostileRecv {
+			tags["resonate:invoke"] = pick(g.R, hostileRecvs)
+		}
 	}
 	if g.R.Intn(3) == 0 {
 		tags["t"] = pick(g.R, []string{"a", "b"})
@@ -324,13 +344,13 @@ func (g *Gen) reqSpec() *ReqSpec {
 		}
 		return sp
 	case "CreateCallback":
-		sp := &ReqSpec{Kind: kind, Id: "cb", PromiseId: g.promiseId(), RootId: g.promiseId(), Recv: pick(g.R, recvs), TimeoutRel: g.timeoutRel()}
+		sp := &ReqSpec{Kind: kind, Id: "cb", PromiseId: g.promiseId(), RootId: g.promiseId(), Recv: g.recv(), TimeoutRel: g.timeoutRel()}
 		if g.R.Intn(3) == 0 {
 			sp.RootId = pick(g.R, []string{"r0", "r1"})
 		}
 		return sp
 	case "CreateSubscription":
-		return &ReqSpec{Kind: kind, Id: pick(g.R, g.P.Subs), PromiseId: g.promiseId(), Recv: pick(g.R, recvs), TimeoutRel: g.timeoutRel()}
+		return &ReqSpec{Kind: kind, Id: pick(g.R, g.P.Subs), PromiseId: g.promiseId(), Recv: g.recv(), TimeoutRel: g.timeoutRel()}
 	case "ReadSchedule", "DeleteSchedule":
 		return &ReqSpec{Kind: kind, Id: pick(g.R, g.P.Schedules)}
 	case "CreateSchedule":
@@ -699,12 +719,12 @@ func (g *Gen) Next() Step {
 					g.queue = append(g.queue, Step{Op: "req", Req: &ReqSpec{Kind: "CreatePromise", Id: id, Data: g.val(), TimeoutRel: short, Tags: map[string]string{"resonate:invoke": pick(r, routingTags)}}})
 				case 1:
 					g.queue = append(g.queue, Step{Op: "req", Req: &ReqSpec{Kind: "CreatePromise", Id: id, Data: g.val(), TimeoutRel: long}},
-						Step{Op: "req", Req: &ReqSpec{Kind: "CreateSubscription", Id: pick(r, g.P.Subs), PromiseId: id, Recv: pick(r, recvs), TimeoutRel: short}},
+						Step{Op: "req", Req: &ReqSpec{Kind: "CreateSubscription", Id: pick(r, g.P.Subs), PromiseId: id, Recv: g.recv(), TimeoutRel: short}},
 						Step{Op: "drain"},
 						Step{Op: "req", Req: &ReqSpec{Kind: "CompletePromise", Id: id, State: pick(r, []string{"RESOLVED", "REJECTED"}), Data: g.val()}})
 				default:
 					g.queue = append(g.queue, Step{Op: "req", Req: &ReqSpec{Kind: "CreatePromise", Id: id, Data: g.val(), TimeoutRel: long}},
-						Step{Op: "req", Req: &ReqSpec{Kind: "CreateCallback", Id: "cb", PromiseId: id, RootId: pick(r, g.P.Promises), Recv: pick(r, recvs), TimeoutRel: short}},
+						Step{Op: "req", Req: &ReqSpec{Kind: "CreateCallback", Id: "cb", PromiseId: id, RootId: pick(r, g.P.Promises), Recv: g.recv(), TimeoutRel: short}},
 						Step{Op: "drain"},
 						Step{Op: "req", Req: &ReqSpec{Kind: "CompletePromise", Id: id, State: pick(r, []string{"RESOLVED", "REJECTED"}), Data: g.val()}})
 				}
